@@ -423,6 +423,17 @@ func init() {
 			return runC15("quick", 0)
 		},
 	}
+	gridCheck("C16", []func() GridDriver{
+		func() GridDriver { return NewUpGrid() },
+		func() GridDriver { return NewGateGrid(1) }, func() GridDriver { return NewGateGrid(3) }, func() GridDriver { return NewGateGrid(4) }, func() GridDriver { return NewGateGrid(7) },
+	}, 30, 150, nil)
+	{
+		inner := Registry["C16"]
+		Registry["C16"] = &Check{
+			Run:    func(tier string, seed int64) int { defer CleanupScratch(); return inner.Run(tier, seed) },
+			Replay: func(rf *ReplayFile) int { defer CleanupScratch(); return inner.Replay(rf) },
+		}
+	}
 	bfsCheckT("C08", "netmap-history", func(tier string) func() Driver {
 		if tier == "thorough" {
 			return func() Driver { return NewSnapDriver([]int{0, 1, 2, 3, 4, 5, 6, 7, 8, 9, 10, 11, 12}, 30, 2) }
